@@ -141,7 +141,13 @@ func (sg *Getter) GetSamples(
 				}
 				return samples[i].Verify(header.DAH, request.RowIndex, request.ShareIndex)
 			}
-			return sg.executeRequest(ctx, logger, header, request.Name(), req, verify)
+			err := sg.executeRequest(ctx, logger, header, request.Name(), req, verify)
+			if err != nil {
+				// the slot may hold a response that was decoded but failed verification:
+				// never hand unverified data back with the partial result
+				samples[i] = shwap.Sample{}
+			}
+			return err
 		})
 	}
 
